@@ -12,6 +12,26 @@
 #define IO_LEN_MAX (1LL << 28)
 #endif
 
+/* With IO_CONTRACT_ENFORCE (file_io units: the contract is ENFORCED on the real function) the ghost bookkeeping
+** clauses are left out: the real code does not maintain ghost state.  The remaining clauses are identical. */
+#ifdef IO_CONTRACT_ENFORCE
+#define IO_GHOST(x)
+#ifndef IO_ENV_TARGETS
+#define IO_ENV_TARGETS
+#endif
+#define IO_GHOST_TARGET		IO_ENV_TARGETS
+/* enforcement: the pointer preconditions are established with is_fresh, and the handle is a concrete one */
+#define IO_WOK(p, n)		__CPROVER_is_fresh ((p), (n))
+#define IO_ROK(p, n)		__CPROVER_is_fresh ((p), (n))
+#define IO_PSF(psf)			IO_ENFORCE_HANDLE (psf)
+#else
+#define IO_GHOST(x)			x
+#define IO_GHOST_TARGET		, __CPROVER_object_whole (&gio)
+#define IO_WOK(p, n)		__CPROVER_w_ok ((p), (n))
+#define IO_ROK(p, n)		__CPROVER_r_ok ((p), (n))
+#define IO_PSF(psf)			__CPROVER_r_ok ((psf), sizeof (SF_PRIVATE))
+#endif
+
 struct verif_io_ghost
 {	int io_short ;			/* some transfer was short */
 	unsigned fread_calls, fwrite_calls, fseek_calls ;	/* unsigned: wrap-around is harmless for a counter */
@@ -20,32 +40,32 @@ struct verif_io_ghost
 
 sf_count_t psf_fread (void *ptr, sf_count_t bytes, sf_count_t items, SF_PRIVATE *psf)
 __CPROVER_requires (bytes > 0 && bytes <= 8 && items >= 0 && items <= IO_LEN_MAX)
-__CPROVER_requires (items == 0 || __CPROVER_w_ok (ptr, (size_t) (bytes * items)))
-__CPROVER_requires (__CPROVER_r_ok (psf, sizeof (SF_PRIVATE)))
-__CPROVER_assigns (psf->error, psf->pipeoffset, __CPROVER_object_whole (&gio); items > 0: __CPROVER_object_from (ptr))
-__CPROVER_ensures (0 <= __CPROVER_return_value && __CPROVER_return_value <= items)
-__CPROVER_ensures (gio.fread_calls == __CPROVER_old (gio.fread_calls) + 1 && gio.fwrite_calls == __CPROVER_old (gio.fwrite_calls) && gio.fseek_calls == __CPROVER_old (gio.fseek_calls))
-__CPROVER_ensures (gio.last_fread_ret == __CPROVER_return_value)
-__CPROVER_ensures (__CPROVER_return_value == items ? (psf->error == __CPROVER_old (psf->error) && gio.io_short == __CPROVER_old (gio.io_short)) : gio.io_short == 1)
+__CPROVER_requires (items == 0 || IO_WOK (ptr, (size_t) (bytes * items)))
+__CPROVER_requires (IO_PSF (psf))
+__CPROVER_assigns (psf->error, psf->pipeoffset, psf->syserr IO_GHOST_TARGET; items > 0: __CPROVER_object_from (ptr))
+__CPROVER_ensures (0 <= __CPROVER_return_value && __CPROVER_return_value <= items) /*@C14.fread_count_in_range_on_every_route*/ /*@C15.fread_count_in_range*/
+__CPROVER_ensures (__CPROVER_return_value == items ==> psf->error == __CPROVER_old (psf->error)) /*@C15.full_transfer_sets_no_error*/
+IO_GHOST (__CPROVER_ensures (gio.fread_calls == __CPROVER_old (gio.fread_calls) + 1 && gio.fwrite_calls == __CPROVER_old (gio.fwrite_calls) && gio.fseek_calls == __CPROVER_old (gio.fseek_calls)))
+IO_GHOST (__CPROVER_ensures (gio.last_fread_ret == __CPROVER_return_value))
+IO_GHOST (__CPROVER_ensures (__CPROVER_return_value == items ? gio.io_short == __CPROVER_old (gio.io_short) : gio.io_short == 1))
 ;
 sf_count_t psf_fwrite (const void *ptr, sf_count_t bytes, sf_count_t items, SF_PRIVATE *psf)
 __CPROVER_requires (bytes > 0 && bytes <= 8 && items >= 0 && items <= IO_LEN_MAX)
-__CPROVER_requires (items == 0 || __CPROVER_r_ok (ptr, (size_t) (bytes * items)))
-__CPROVER_requires (__CPROVER_r_ok (psf, sizeof (SF_PRIVATE)))
-__CPROVER_assigns (psf->error, psf->pipeoffset, __CPROVER_object_whole (&gio))
-__CPROVER_ensures (0 <= __CPROVER_return_value && __CPROVER_return_value <= items)
-__CPROVER_ensures (gio.fwrite_calls == __CPROVER_old (gio.fwrite_calls) + 1 && gio.fread_calls == __CPROVER_old (gio.fread_calls) && gio.fseek_calls == __CPROVER_old (gio.fseek_calls))
-__CPROVER_ensures (__CPROVER_return_value == items ? (psf->error == __CPROVER_old (psf->error) && gio.io_short == __CPROVER_old (gio.io_short)) : gio.io_short == 1)
+__CPROVER_requires (items == 0 || IO_ROK (ptr, (size_t) (bytes * items)))
+__CPROVER_requires (IO_PSF (psf))
+__CPROVER_assigns (psf->error, psf->pipeoffset, psf->syserr IO_GHOST_TARGET)
+__CPROVER_ensures (0 <= __CPROVER_return_value && __CPROVER_return_value <= items) /*@C14.fwrite_count_in_range_on_every_route*/ /*@C15.fwrite_count_in_range*/
+__CPROVER_ensures (__CPROVER_return_value == items ==> psf->error == __CPROVER_old (psf->error)) /*@C15.full_transfer_sets_no_error*/
+IO_GHOST (__CPROVER_ensures (gio.fwrite_calls == __CPROVER_old (gio.fwrite_calls) + 1 && gio.fread_calls == __CPROVER_old (gio.fread_calls) && gio.fseek_calls == __CPROVER_old (gio.fseek_calls)))
+IO_GHOST (__CPROVER_ensures (__CPROVER_return_value == items ? gio.io_short == __CPROVER_old (gio.io_short) : gio.io_short == 1))
 ;
 sf_count_t psf_fseek (SF_PRIVATE *psf, sf_count_t offset, int whence)
-__CPROVER_requires (__CPROVER_r_ok (psf, sizeof (SF_PRIVATE)))
-__CPROVER_assigns (psf->error, psf->pipeoffset, __CPROVER_object_whole (&gio))
-__CPROVER_ensures (gio.fseek_calls == __CPROVER_old (gio.fseek_calls) + 1 && gio.fread_calls == __CPROVER_old (gio.fread_calls) && gio.fwrite_calls == __CPROVER_old (gio.fwrite_calls) && gio.io_short == __CPROVER_old (gio.io_short))
-__CPROVER_ensures (__CPROVER_return_value >= -1)
+__CPROVER_requires (IO_PSF (psf) && -(1LL << 50) <= offset && offset <= (1LL << 50))
+__CPROVER_assigns (psf->error, psf->pipeoffset, psf->syserr IO_GHOST_TARGET)
+IO_GHOST (__CPROVER_ensures (gio.fseek_calls == __CPROVER_old (gio.fseek_calls) + 1 && gio.fread_calls == __CPROVER_old (gio.fread_calls) && gio.fwrite_calls == __CPROVER_old (gio.fwrite_calls) && gio.io_short == __CPROVER_old (gio.io_short)))
 ;
 sf_count_t psf_ftell (SF_PRIVATE *psf)
-__CPROVER_requires (__CPROVER_r_ok (psf, sizeof (SF_PRIVATE)))
-__CPROVER_assigns (psf->error)
-__CPROVER_ensures (__CPROVER_return_value >= -1)
+__CPROVER_requires (IO_PSF (psf))
+__CPROVER_assigns (psf->error, psf->syserr IO_GHOST_TARGET)
 ;
 #endif
